@@ -655,6 +655,8 @@ class ExpressionValue(Value):
                 self.value = NumericValue("{}".format(int(left * right)), mode=mode)
             if self.operation == "/":
                 self.value = NumericValue("{}".format(int(left / right)), mode=mode)
+            if self.value.is_direct() and not self.value.is_negative() and self.value.int > 255:
+                self.value = NumericValue(self.value.int, mode=ExplicitAddressingMode.EXTENDED)
             return self.value
 
         if self.left.is_address() or self.right.is_address():
